@@ -287,7 +287,7 @@ fn check_case(unit: &Value, id: usize, o: &Opts, level: Option<&crate::conv::Lev
     }
 }
 
-const ARG0S: [&[u8]; 6] = [b"app", b"/abs/path/tool", b"./rel/tool-name", b"name with space", b"bad\xffname", b""];
+const ARG0S: [&[u8]; 12] = [b"app", b"/abs/path/tool", b"./rel/tool-name", b"name with space", b"bad\xffname", b"", b"my.tool", b"/opt/frob-1.2", b"app.exe", b".hidden", b"dir.d/", b"tr\xc3\xa4ger"];
 
 impl Check for C11 {
     fn id(&self) -> &'static str {
@@ -342,7 +342,7 @@ impl Check for C11 {
         }
     }
     fn rule(&self) -> String {
-        "corpus = definitions sampled at fixed strides from the conventional family (with/without version), general shapes, adjacent groups, the documented family, plus env-backed, max_width(40), fallback_to_usage + version, custom help names; every definition is compiled into the harness executable and run through the real OptionParser::run() in a child process (execve with the argument vector as bytes, argv[0] set explicitly, empty environment); inputs = every vector of the token tree over the definition's names, words, an empty item, a non-UTF-8 word, --name=\\xff, --help, --version and the completion marker; argv[0] in {plain, absolute path, relative path, name with space, non-UTF-8, empty} for vectors of length <= 1; oracle = (1) for the conventional part of the corpus the outcome class prescribed by the reference scanner (value / stderr failure / usage on stdout for a level with fallback_to_usage that got no items); (2) in-process run_inner with the name taken from argv[0]'s file name: value -> stdout 'BODY <debug>' / status 0 / empty stderr; stdout -> text + newline on stdout / 0 / empty stderr, no BODY; stderr -> 'Error: ' + text on stderr / status 1 / empty stdout / non-empty message; completion -> text on stdout / 0; evaluation = one spawned process".into()
+        "corpus = definitions sampled at fixed strides from the conventional family (with/without version), general shapes, adjacent groups, the documented family, plus env-backed, max_width(40), fallback_to_usage + version, custom help names; every definition is compiled into the harness executable and run through the real OptionParser::run() in a child process (execve with the argument vector as bytes, argv[0] set explicitly, empty environment); inputs = every vector of the token tree over the definition's names, words, an empty item, a non-UTF-8 word, --name=\\xff, --help, --version and the completion marker; argv[0] in {plain, absolute path, relative path, name with space, non-UTF-8, empty, names with dots / a version suffix / an extension / a leading dot / a trailing slash / non-ASCII} for vectors of length <= 1; oracle = (1) for the conventional part of the corpus the outcome class prescribed by the reference scanner (value / stderr failure / usage on stdout for a level with fallback_to_usage that got no items); (2) in-process run_inner with the name taken from argv[0]'s file name: value -> stdout 'BODY <debug>' / status 0 / empty stderr; stdout -> text + newline on stdout / 0 / empty stderr, no BODY; stderr -> 'Error: ' + text on stderr / status 1 / empty stdout / non-empty message; completion -> text on stdout / 0; evaluation = one spawned process".into()
     }
     fn bounds(&self, tier: Tier) -> Value {
         json!({"corpus": corpus().len(), "vector_length": tier.pick(2, 3)})
